@@ -6,6 +6,7 @@ import Driver.Sym
 import Driver.Store
 import Driver.Retry
 import Driver.SigV4
+import Driver.SigV4Reads
 import Driver.Settings
 import Driver.Options
 import Driver.RateLimit
@@ -31,6 +32,7 @@ def dispatch (j : Json) : Except String Json := do
   else if op.startsWith "store." then Driver.handleStore op j
   else if op.startsWith "retry." then Driver.handleRetry op j
   else if op.startsWith "sigv4." then Driver.handleSigV4 op j
+  else if op.startsWith "sigv4r." then Driver.handleSigV4Reads op j
   else if op.startsWith "settings." then Driver.handleSettings op j
   else if op.startsWith "options." then Driver.handleOptions op j
   else if op.startsWith "rate." then Driver.handleRateLimit op j
